@@ -39,7 +39,7 @@ type ctx struct {
 }
 
 func main() {
-	mode := flag.String("mode", "sqlite", "sqlite|mysql|mysql-my57|mysql-my80|mysql-maria|mysql-history|postgres|postgres-ns|postgres-history|cli")
+	mode := flag.String("mode", "sqlite", "sqlite|mysql|mysql-my57|mysql-my80|mysql-maria|mysql-history|postgres|postgres-ns|postgres-history|cli|realm|tattrs|views|objects")
 	tier := flag.String("tier", "quick", "quick|thorough")
 	outDir := flag.String("out", "", "output directory")
 	flag.Parse()
@@ -47,7 +47,35 @@ func main() {
 		fmt.Fprintln(os.Stderr, "missing -out")
 		os.Exit(2)
 	}
-	c := &ctx{w: out.New(*outDir), p: newProfile(*mode), r: rng.FromEnv(0xC02)}
+	pm := *mode
+	if pm == "realm" || pm == "tattrs" || pm == "views" || pm == "objects" {
+		pm = "sqlite"
+	}
+	c := &ctx{w: out.New(*outDir), p: newProfile(pm), r: rng.FromEnv(0xC02)}
+	if *mode == "objects" {
+		// round 5: PostgreSQL enum objects (objects.go)
+		c.objects(*tier == "thorough")
+		c.w.Close()
+		return
+	}
+	if *mode == "views" {
+		// round 5: views (views.go)
+		c.views(*tier == "thorough")
+		c.w.Close()
+		return
+	}
+	if *mode == "tattrs" {
+		// round 5: table attributes of MySQL / PostgreSQL (tattrs.go)
+		c.tattrs(*tier == "thorough")
+		c.w.Close()
+		return
+	}
+	if *mode == "realm" {
+		// round 5: RealmDiff / schema attributes of all dialects in one stage (realm.go)
+		c.realm(*tier == "thorough")
+		c.w.Close()
+		return
+	}
 	if *mode == "postgres-ns" {
 		// the connection-backed PostgreSQL differ with a schema scope (conn.schema = "public")
 		c.differ, c.tie = scopedPGDiffer("public"), true
